@@ -71,11 +71,16 @@ InsertConfirms(b, sg) ==
         IN /\ conf' = c2 /\ stable' = st2 /\ known' = kn2
            /\ head' = IF head \notin un THEN Best(un, st2) ELSE head                                      \* UpdateForkForConfirm
   /\ UNCHANGED <<parent, miner, hrank, lastSig>>
+\* the same deliveries with every signature of the packet relayed twice (byte-identical duplicates inside one list)
+InsertBlockDup(b, sg) == sg # {} /\ InsertBlock(b, sg)
+InsertConfirmsDup(b, sg) == InsertConfirms(b, sg)
 \* confirms that bring nothing new (unknown block, enough already, duplicates, non-deputies, the miner itself)
 IgnoreConfirms(b, sg) ==
   /\ (b \notin known \ {G} \/ Enough(b, conf) \/ ((Signers(sg) \cap Dep) \ {miner[b]}) \ conf[b] = {})
   /\ UNCHANGED vars
 Next == \/ \E b \in Block, sg \in Packets \cup {{}} : InsertBlock(b, sg)
+        \/ \E b \in Block, sg \in Packets : InsertBlockDup(b, sg)
+        \/ \E b \in Block, sg \in Packets : InsertConfirmsDup(b, sg)
         \/ \E b \in Block : RejectBlock(b, {})
         \/ \E b \in Block, sg \in Packets : InsertConfirms(b, sg)
         \/ \E b \in Block, sg \in Packets : IgnoreConfirms(b, sg)
